@@ -71,6 +71,31 @@ FREED = []
 RETAINED = []
 
 
+def lookalike(rng, t0):
+    """a new transition equal to t0 in everything but one respect (its contract, guard, action or priority) - or in nothing"""
+    from sismic.model import Transition
+    t = Transition(t0.source, t0.target, event=t0.event, guard=t0.guard, action=t0.action, priority=t0.priority)
+    t.preconditions[:] = list(t0.preconditions)
+    t.postconditions[:] = list(t0.postconditions)
+    t.invariants[:] = list(t0.invariants)
+    k = rng.randrange(7)
+    if k == 0:
+        t.preconditions.append('x >= %d' % rng.randint(0, 3))
+    elif k == 1:
+        t.postconditions.append('y >= 0')
+    elif k == 2:
+        t.invariants.append('True')
+    elif k == 3:
+        t._guard = (t.guard or 'True') + ' and True' if hasattr(t, '_guard') else t.guard
+        if not hasattr(t, '_guard'):
+            t = Transition(t0.source, t0.target, event=t0.event, guard=(t0.guard or 'True') + ' and True', action=t0.action, priority=t0.priority)
+    elif k == 4:
+        t = Transition(t0.source, t0.target, event=t0.event, guard=t0.guard, action=(t0.action or '') + '\nx = 1', priority=t0.priority)
+    elif k == 5:
+        t = Transition(t0.source, t0.target, event=t0.event, guard=t0.guard, action=t0.action, priority=(t0.priority or 0) + 1)
+    return t          # k == 6: an exact twin
+
+
 def own_subtree(sc, n):
     """n and the states below it, read from the parent map alone"""
     if n not in sc._states:
@@ -124,10 +149,14 @@ def random_op(rng, sc, uniq):
         tg = rng.random()
         t = Transition(pick(), pick() if tg < 0.75 else (None if tg < 0.93 else ''), event=rng.choice(['e0', 'e1', None]),
                        priority=rng.choice([None, 1, -1]))
+        if sc._transitions and rng.random() < 0.3:
+            t = lookalike(rng, rng.choice(sc._transitions))
         return ('(EAddTransition %s)' % tocoq.c_trans(trans_value(t)), lambda: sc.add_transition(t), 'add_transition')
     if r < 0.88:
         if sc._transitions and rng.random() < 0.75:
             t = rng.choice(sc._transitions)
+            if rng.random() < 0.2:
+                t = lookalike(rng, t)      # an unregistered transition that differs from a registered one in a single respect
         else:
             t = Transition(pick(), None, event='unregistered%d' % next(uniq))
         return ('(ERemoveTransition %s)' % tocoq.c_trans(trans_value(t)), lambda: sc.remove_transition(t),
